@@ -387,13 +387,22 @@ def correspondence(ctx, binname, nontrivial, gen_args=None, model_shards=16, rep
         res["error"] = "model runner does not build:\n" + rlog
         return res
     out = os.path.join(ctx.work, "corr")
+    # a run that does not finish (an implementation that loops, or is slower by orders of magnitude) must not hang
+    # the check: quick-tier harness runs take seconds to a minute on the unchanged tree
+    hto = int(os.environ.get("VERIF_HARNESS_TIMEOUT", "0")) or (900 if ctx.tier == "quick" else 3000)
     if replay_cases is not None:
         cf = os.path.join(ctx.work, "replay_cases.txt")
         open(cf, "w").write("\n".join(replay_cases) + "\n")
-        rc, o, dt = run_harness(exe, ["replay", cf, out], env=harness_env)
+        rc, o, dt = run_harness(exe, ["replay", cf, out], env=harness_env, timeout=hto)
     else:
-        rc, o, dt = run_harness(exe, ["gen", ctx.seed, ctx.tier, out] + list(gen_args or []), env=harness_env)
+        rc, o, dt = run_harness(exe, ["gen", ctx.seed, ctx.tier, out] + list(gen_args or []), env=harness_env,
+                                timeout=hto)
     res["impl_s"] = round(dt, 1)
+    if rc == 124:
+        res["error"] = ("the implementation run did not finish within %d s (on the unchanged tree it takes %s): some call "
+                        "into the library does not terminate or is slower by orders of magnitude\n%s"
+                        % (hto, "seconds to a minute" if ctx.tier == "quick" else "minutes", o[-1500:]))
+        return res
     if rc != 0:
         res["error"] = "harness run failed (rc=%d):\n%s" % (rc, o[-3000:])
         return res
